@@ -224,6 +224,13 @@ class Check:
               'coverage': cov, 'assumptions': self.assumptions, 'wall_s': round(wall, 2),
               'violations': len(self.violations)}
         os.makedirs(EVID_DIR, exist_ok=True)
+        try:
+            os.makedirs(core.REPLAY_DIR, exist_ok=True)
+            with open(os.path.join(core.REPLAY_DIR, 'last-%s-failures.json' % self.pid), 'w') as f:
+                json.dump({r.job.name: {'status': r.status, 'reason': r.reason[:2000], 'failed': [p.as_dict() for p in r.failed[:60]]}
+                           for r in self.results if r.status != 'pass'}, f, indent=1)
+        except Exception:
+            pass
         with open(os.path.join(EVID_DIR, '%s.json' % self.pid), 'w') as f:
             json.dump(ev, f, indent=1)
         # ---- contract lines
